@@ -66,6 +66,51 @@ def jsonable(x):
 
 
 ARG_SNAPSHOT = os.environ.get("VERIF_NO_ARG_SNAPSHOT") != "1"
+FORCE_LAYOUT = None  # None | "F" | "view": memory layout forced on every >= 2-D array argument handed to the library
+
+
+def _relayout(x):
+    """Same values, other memory layout: Fortran order (what cryomap.read returns) or a strided, non-contiguous view."""
+    if isinstance(x, np.ndarray) and x.ndim >= 2 and x.size > 0 and x.dtype != object:
+        if FORCE_LAYOUT == "F":
+            return np.asfortranarray(x)
+        if FORCE_LAYOUT == "view":
+            big = np.zeros(tuple(2 * d for d in x.shape), dtype=x.dtype)
+            sl = tuple(slice(None, None, 2) for _ in x.shape)
+            big[sl] = x
+            return big[sl]
+    return x
+
+
+class force_layout:
+    def __init__(self, layout):
+        self.layout = layout
+
+    def __enter__(self):
+        global FORCE_LAYOUT
+        self.old = FORCE_LAYOUT
+        FORCE_LAYOUT = self.layout
+
+    def __exit__(self, *a):
+        global FORCE_LAYOUT
+        FORCE_LAYOUT = self.old
+        return False
+
+
+def with_array_layouts(fam, select=None, layouts=("F", "view"), name=None, expect=()):
+    """A second family over (a selection of) the cases of `fam` in which every >= 2-D array argument reaches the library
+    Fortran-ordered or as a strided view (same values).  The oracle of the family is unchanged."""
+    from .space import Listed, Product
+
+    base = fam.space if select is None else Listed([c for c in fam.space if select(c)])
+    execute = fam.execute
+
+    def ex(case, obs):
+        with force_layout(case[1]):
+            return execute(case[0], obs)
+
+    return Family(name or fam.name + "@array-layout", Product(base, list(layouts)), ex, expect=expect,
+                  describe=lambda c: {"case": fam.describe(c[0]), "array_layout": c[1]})
 _SNAP_MAX = 200000
 
 
@@ -137,6 +182,9 @@ class Obs:
         compared afterwards (clause `argument-untouched`; labels of a DataFrame are not part of the snapshot)."""
         self.transitions += 1
         outs = k.pop("_outputs", ())  # positional indices of documented OUTPUT buffers (filled in place by design)
+        if FORCE_LAYOUT is not None:
+            a = tuple(v if i in outs else _relayout(v) for i, v in enumerate(a))
+            k = {key: _relayout(v) for key, v in k.items()}
         snaps = [t for t in _snapshot_args(a, k) if not any(t[0] == f"#{i}" or t[0].startswith(f"#{i}[") for i in outs)] if ARG_SNAPSHOT else None
         try:
             r = fn(*a, **k)
